@@ -50,6 +50,9 @@ package rib
 //@ requires r != nil
 //@ ensures[sound] forall i in 0..len(result0) :: result0[i] in dom(r.niRIB)
 //@ ensures[complete] forall k in dom(r.niRIB) :: exists i in 0..len(result0) :: result0[i] == k
+//@ loop 1 at "range r.niRIB" invariant forall i in 0..len(names) :: names[i] in dom(r.niRIB)
+//@ loop 1 invariant forall k in dom(visited) :: k in dom(r.niRIB) ==> exists i in 0..len(names) :: names[i] == k
+//@ loop 1 invariant held(r.nrMu) == 1
 //@ assigns nothing
 //@ props C08 C07 C11:lock
 
@@ -61,3 +64,246 @@ package rib
 //@ ensures[ok] result0 == nil
 //@ assigns ribState
 //@ props C08 C03 C12:safety
+
+//@ guarded_by niRefCounter.mu: NextHop, NextHopGroup
+
+// holderWF: representation invariant of one network-instance RIB.
+//@ pred holderWF(h *RIBHolder) = h != nil && h.r != nil && h.r.Afts != nil && h.refCounts != nil
+//@   && h.refCounts.NextHop != nil && h.refCounts.NextHopGroup != nil
+
+//@ pred wrap64(x Int) = x % 18446744073709551616
+
+//@ unit RIBHolder.incNHGRefCount
+//@ requires holderWF(r)
+//@ ensures r.refCounts.NextHopGroup[i] == wrap64(old(r.refCounts.NextHopGroup[i]) + 1)
+//@ assigns r.refCounts.NextHopGroup[i]
+//@ props C03 C11:lock C12:safety
+
+//@ unit RIBHolder.decNHGRefCount
+//@ requires holderWF(r)
+//@ ensures r.refCounts.NextHopGroup[i] == ite(old(r.refCounts.NextHopGroup[i]) == 0, 0, old(r.refCounts.NextHopGroup[i]) - 1)
+//@ assigns r.refCounts.NextHopGroup[i]
+//@ props C03 C11:lock C12:safety
+
+//@ unit RIBHolder.nhgReferenced
+//@ requires holderWF(r)
+//@ ensures result0 <==> r.refCounts.NextHopGroup[i] > 0
+//@ assigns nothing
+//@ props C03 C11:lock C12:safety
+
+//@ unit RIBHolder.incNHRefCount
+//@ requires holderWF(r)
+//@ ensures r.refCounts.NextHop[i] == wrap64(old(r.refCounts.NextHop[i]) + 1)
+//@ assigns r.refCounts.NextHop[i]
+//@ props C03 C11:lock C12:safety
+
+//@ unit RIBHolder.decNHRefCount
+//@ requires holderWF(r)
+//@ ensures r.refCounts.NextHop[i] == ite(old(r.refCounts.NextHop[i]) == 0, 0, old(r.refCounts.NextHop[i]) - 1)
+//@ assigns r.refCounts.NextHop[i]
+//@ props C03 C11:lock C12:safety
+
+//@ unit RIBHolder.nhReferenced
+//@ requires holderWF(r)
+//@ ensures result0 <==> r.refCounts.NextHop[i] > 0
+//@ assigns nothing
+//@ props C03 C11:lock C12:safety
+
+//@ unit RIBHolder.ipv4Exists
+//@ requires holderWF(r)
+//@ ensures result0 <==> prefix in dom(r.r.Afts.Ipv4Entry)
+//@ assigns nothing
+//@ props C01 C12:safety
+
+//@ unit RIBHolder.ipv6Exists
+//@ requires holderWF(r)
+//@ ensures result0 <==> prefix in dom(r.r.Afts.Ipv6Entry)
+//@ assigns nothing
+//@ props C01 C12:safety
+
+//@ unit RIBHolder.nhgExists
+//@ requires holderWF(r)
+//@ ensures result0 <==> id in dom(r.r.Afts.NextHopGroup)
+//@ assigns nothing
+//@ props C01 C03 C12:safety
+
+//@ unit RIBHolder.nhExists
+//@ requires holderWF(r)
+//@ ensures result0 <==> index in dom(r.r.Afts.NextHop)
+//@ assigns nothing
+//@ props C01 C03 C12:safety
+
+//@ unit RIBHolder.retrieveIPv4
+//@ requires holderWF(r)
+//@ ensures result0 == r.r.Afts.Ipv4Entry[prefix]
+//@ assigns nothing
+//@ props C01 C12:safety
+
+//@ unit RIBHolder.retrieveIPv6
+//@ requires holderWF(r)
+//@ ensures result0 == r.r.Afts.Ipv6Entry[prefix]
+//@ assigns nothing
+//@ props C01 C12:safety
+
+//@ unit RIBHolder.retrieveNHG
+//@ requires holderWF(r)
+//@ ensures result0 == r.r.Afts.NextHopGroup[id]
+//@ assigns nothing
+//@ props C01 C12:safety
+
+//@ unit RIBHolder.retrieveNH
+//@ requires holderWF(r)
+//@ ensures result0 == r.r.Afts.NextHop[index]
+//@ assigns nothing
+//@ props C01 C12:safety
+
+//@ unit RIBHolder.doDeleteIPv4
+//@ requires holderWF(r)
+//@ ensures !(pfx in dom(r.r.Afts.Ipv4Entry))
+//@ assigns r.r.Afts.Ipv4Entry[pfx]
+//@ props C01 C12:safety
+
+//@ unit RIBHolder.doDeleteIPv6
+//@ requires holderWF(r)
+//@ ensures !(pfx in dom(r.r.Afts.Ipv6Entry))
+//@ assigns r.r.Afts.Ipv6Entry[pfx]
+//@ props C01 C12:safety
+
+//@ unit RIBHolder.doDeleteNHG
+//@ requires holderWF(r)
+//@ ensures !(idx in dom(r.r.Afts.NextHopGroup))
+//@ assigns r.r.Afts.NextHopGroup[idx]
+//@ props C01 C12:safety
+
+//@ unit RIBHolder.doDeleteNH
+//@ requires holderWF(r)
+//@ ensures !(id in dom(r.r.Afts.NextHop))
+//@ assigns r.r.Afts.NextHop[id]
+//@ props C01 C12:safety
+
+//@ unit RIBHolder.GetNextHop
+//@ requires holderWF(r)
+//@ ensures result1 <==> (index in dom(r.r.Afts.NextHop) && r.r.Afts.NextHop[index] != nil)
+//@ ensures result1 ==> result0 == r.r.Afts.NextHop[index]
+//@ assigns nothing
+//@ props C02 C12:safety
+
+//@ unit RIBHolder.GetNextHopGroup
+//@ requires holderWF(r)
+//@ ensures result1 <==> (id in dom(r.r.Afts.NextHopGroup) && r.r.Afts.NextHopGroup[id] != nil)
+//@ ensures result1 ==> result0 == r.r.Afts.NextHopGroup[id]
+//@ assigns nothing
+//@ props C02 C12:safety
+
+//@ unit RIB.refdRIB
+//@ requires r != nil
+//@ ensures[same] ref == "" ==> result0 == ni && result1 == nil
+//@ ensures[other] ref != "" && ref in dom(r.niRIB) ==> result0 == r.niRIB[ref] && result1 == nil
+//@ ensures[unknown] ref != "" && !(ref in dom(r.niRIB)) ==> result0 == nil && result1 != nil
+//@ assigns nothing
+//@ props C03 C12:safety
+
+//@ unit RIB.getPending
+//@ requires r != nil
+//@ ensures[sound] forall i in 0..len(result0) :: exists k in dom(r.pendingEntries) :: r.pendingEntries[k] == result0[i]
+//@ ensures[complete] forall k in dom(r.pendingEntries) :: exists i in 0..len(result0) :: result0[i] == r.pendingEntries[k]
+//@ loop 1 at "range r.pendingEntries" invariant forall i in 0..len(p) :: exists k in dom(r.pendingEntries) :: r.pendingEntries[k] == p[i]
+//@ loop 1 invariant forall k in dom(visited) :: k in dom(r.pendingEntries) ==> exists i in 0..len(p) :: p[i] == r.pendingEntries[k]
+//@ loop 1 invariant held(r.pendMu) == 1
+//@ assigns nothing
+//@ props C02 C06 C11:lock C12:safety
+
+//@ unit RIB.addPending
+//@ requires r != nil && r.pendingEntries != nil
+//@ ensures id in dom(r.pendingEntries) && r.pendingEntries[id] == e
+//@ assigns r.pendingEntries[id]
+//@ props C02 C06 C11:lock C12:safety
+
+//@ unit RIB.rmPending
+//@ requires r != nil
+//@ ensures !(id in dom(r.pendingEntries))
+//@ assigns r.pendingEntries[id]
+//@ props C02 C06 C11:lock C12:safety
+// ---- generated by /verif/tools/gen_rib_contracts.py (five AFT tables, one shape) ----
+// separateAfts: the candidate shares no table with the installed RIB (it is freshly built by candidateRIB).
+//@ pred separateAfts(C *aft.Afts, A *aft.Afts) = C != A && (C.Ipv4Entry == nil || C.Ipv4Entry != A.Ipv4Entry) && (C.Ipv6Entry == nil || C.Ipv6Entry != A.Ipv6Entry) && (C.LabelEntry == nil || C.LabelEntry != A.LabelEntry) && (C.NextHopGroup == nil || C.NextHopGroup != A.NextHopGroup) && (C.NextHop == nil || C.NextHop != A.NextHop)
+//@ pred candOnly_v4(C *aft.Afts, k string) = dom(C.Ipv4Entry) == add(emptyset(string), k) && C.Ipv4Entry[k] != nil && dom(C.Ipv6Entry) == emptyset(string) && dom(C.LabelEntry) == emptyset(aft.Afts_LabelEntry_Label_Union) && dom(C.NextHopGroup) == emptyset(uint64) && dom(C.NextHop) == emptyset(uint64)
+//@ pred othersKept_v4(A *aft.Afts, k string) = forall j: string :: j != k ==> ((j in dom(A.Ipv4Entry)) <==> (j in old(dom(A.Ipv4Entry)))) && (j in dom(A.Ipv4Entry) ==> A.Ipv4Entry[j] == old(A.Ipv4Entry[j]))
+//@ unit RIBHolder.doAddIPv4
+//@ requires holderWF(r) && newRIB != nil && newRIB.Afts != nil
+//@ requires[cand] candOnly_v4(newRIB.Afts, pfx)
+//@ requires[separate] separateAfts(newRIB.Afts, r.r.Afts)
+//@ ensures[ok] result1 == nil
+//@ ensures[implicit] result0 <==> pfx in old(dom(r.r.Afts.Ipv4Entry))
+//@ ensures[installed] pfx in dom(newRIB.Afts.Ipv4Entry) && pfx in dom(r.r.Afts.Ipv4Entry) && r.r.Afts.Ipv4Entry[pfx] != nil
+//@ ensures[installed-fresh] fresh(r.r.Afts.Ipv4Entry[pfx])
+//@ ensures[installed-same] same_v4(r.r.Afts.Ipv4Entry[pfx], newRIB.Afts.Ipv4Entry[pfx])
+//@ ensures[others-kept] othersKept_v4(r.r.Afts, pfx)
+//@ ensures[wf] holderWF(r)
+//@ assigns r.r.Afts.Ipv4Entry, contents(r.r.Afts.Ipv4Entry)
+//@ props C01 C12:safety
+
+//@ pred candOnly_v6(C *aft.Afts, k string) = dom(C.Ipv6Entry) == add(emptyset(string), k) && C.Ipv6Entry[k] != nil && dom(C.Ipv4Entry) == emptyset(string) && dom(C.LabelEntry) == emptyset(aft.Afts_LabelEntry_Label_Union) && dom(C.NextHopGroup) == emptyset(uint64) && dom(C.NextHop) == emptyset(uint64)
+//@ pred othersKept_v6(A *aft.Afts, k string) = forall j: string :: j != k ==> ((j in dom(A.Ipv6Entry)) <==> (j in old(dom(A.Ipv6Entry)))) && (j in dom(A.Ipv6Entry) ==> A.Ipv6Entry[j] == old(A.Ipv6Entry[j]))
+//@ unit RIBHolder.doAddIPv6
+//@ requires holderWF(r) && newRIB != nil && newRIB.Afts != nil
+//@ requires[cand] candOnly_v6(newRIB.Afts, pfx)
+//@ requires[separate] separateAfts(newRIB.Afts, r.r.Afts)
+//@ ensures[ok] result1 == nil
+//@ ensures[implicit] result0 <==> pfx in old(dom(r.r.Afts.Ipv6Entry))
+//@ ensures[installed] pfx in dom(newRIB.Afts.Ipv6Entry) && pfx in dom(r.r.Afts.Ipv6Entry) && r.r.Afts.Ipv6Entry[pfx] != nil
+//@ ensures[installed-fresh] fresh(r.r.Afts.Ipv6Entry[pfx])
+//@ ensures[installed-same] same_v6(r.r.Afts.Ipv6Entry[pfx], newRIB.Afts.Ipv6Entry[pfx])
+//@ ensures[others-kept] othersKept_v6(r.r.Afts, pfx)
+//@ ensures[wf] holderWF(r)
+//@ assigns r.r.Afts.Ipv6Entry, contents(r.r.Afts.Ipv6Entry)
+//@ props C01 C12:safety
+
+//@ pred candOnly_mpls(C *aft.Afts, k aft.Afts_LabelEntry_Label_Union) = dom(C.LabelEntry) == add(emptyset(aft.Afts_LabelEntry_Label_Union), k) && C.LabelEntry[k] != nil && dom(C.Ipv4Entry) == emptyset(string) && dom(C.Ipv6Entry) == emptyset(string) && dom(C.NextHopGroup) == emptyset(uint64) && dom(C.NextHop) == emptyset(uint64)
+//@ pred othersKept_mpls(A *aft.Afts, k aft.Afts_LabelEntry_Label_Union) = forall j: aft.Afts_LabelEntry_Label_Union :: j != k ==> ((j in dom(A.LabelEntry)) <==> (j in old(dom(A.LabelEntry)))) && (j in dom(A.LabelEntry) ==> A.LabelEntry[j] == old(A.LabelEntry[j]))
+//@ unit RIBHolder.doAddMPLS
+//@ requires holderWF(r) && newRIB != nil && newRIB.Afts != nil
+//@ requires[cand] candOnly_mpls(newRIB.Afts, boxed(aft.UnionUint32, label))
+//@ requires[separate] separateAfts(newRIB.Afts, r.r.Afts)
+//@ ensures[ok] result1 == nil
+//@ ensures[implicit] result0 <==> boxed(aft.UnionUint32, label) in old(dom(r.r.Afts.LabelEntry))
+//@ ensures[installed] boxed(aft.UnionUint32, label) in dom(newRIB.Afts.LabelEntry) && boxed(aft.UnionUint32, label) in dom(r.r.Afts.LabelEntry) && r.r.Afts.LabelEntry[boxed(aft.UnionUint32, label)] != nil
+//@ ensures[installed-fresh] fresh(r.r.Afts.LabelEntry[boxed(aft.UnionUint32, label)])
+//@ ensures[installed-same] same_mpls(r.r.Afts.LabelEntry[boxed(aft.UnionUint32, label)], newRIB.Afts.LabelEntry[boxed(aft.UnionUint32, label)])
+//@ ensures[others-kept] othersKept_mpls(r.r.Afts, boxed(aft.UnionUint32, label))
+//@ ensures[wf] holderWF(r)
+//@ assigns r.r.Afts.LabelEntry, contents(r.r.Afts.LabelEntry)
+//@ props C01 C12:safety
+
+//@ pred candOnly_nhg(C *aft.Afts, k uint64) = dom(C.NextHopGroup) == add(emptyset(uint64), k) && C.NextHopGroup[k] != nil && dom(C.Ipv4Entry) == emptyset(string) && dom(C.Ipv6Entry) == emptyset(string) && dom(C.LabelEntry) == emptyset(aft.Afts_LabelEntry_Label_Union) && dom(C.NextHop) == emptyset(uint64)
+//@ pred othersKept_nhg(A *aft.Afts, k uint64) = forall j: uint64 :: j != k ==> ((j in dom(A.NextHopGroup)) <==> (j in old(dom(A.NextHopGroup)))) && (j in dom(A.NextHopGroup) ==> A.NextHopGroup[j] == old(A.NextHopGroup[j]))
+//@ unit RIBHolder.doAddNHG
+//@ requires holderWF(r) && newRIB != nil && newRIB.Afts != nil
+//@ requires[cand] candOnly_nhg(newRIB.Afts, ID)
+//@ requires[separate] separateAfts(newRIB.Afts, r.r.Afts)
+//@ ensures[ok] result1 == nil
+//@ ensures[implicit] result0 <==> ID in old(dom(r.r.Afts.NextHopGroup))
+//@ ensures[installed] ID in dom(newRIB.Afts.NextHopGroup) && ID in dom(r.r.Afts.NextHopGroup) && r.r.Afts.NextHopGroup[ID] != nil
+//@ ensures[installed-fresh] fresh(r.r.Afts.NextHopGroup[ID])
+//@ ensures[installed-same] same_nhg(r.r.Afts.NextHopGroup[ID], newRIB.Afts.NextHopGroup[ID])
+//@ ensures[others-kept] othersKept_nhg(r.r.Afts, ID)
+//@ ensures[wf] holderWF(r)
+//@ assigns r.r.Afts.NextHopGroup, contents(r.r.Afts.NextHopGroup)
+//@ props C01 C12:safety
+
+//@ pred candOnly_nh(C *aft.Afts, k uint64) = dom(C.NextHop) == add(emptyset(uint64), k) && C.NextHop[k] != nil && dom(C.Ipv4Entry) == emptyset(string) && dom(C.Ipv6Entry) == emptyset(string) && dom(C.LabelEntry) == emptyset(aft.Afts_LabelEntry_Label_Union) && dom(C.NextHopGroup) == emptyset(uint64)
+//@ pred othersKept_nh(A *aft.Afts, k uint64) = forall j: uint64 :: j != k ==> ((j in dom(A.NextHop)) <==> (j in old(dom(A.NextHop)))) && (j in dom(A.NextHop) ==> A.NextHop[j] == old(A.NextHop[j]))
+//@ unit RIBHolder.doAddNH
+//@ requires holderWF(r) && newRIB != nil && newRIB.Afts != nil
+//@ requires[cand] candOnly_nh(newRIB.Afts, index)
+//@ requires[separate] separateAfts(newRIB.Afts, r.r.Afts)
+//@ ensures[ok] result1 == nil
+//@ ensures[implicit] result0 <==> index in old(dom(r.r.Afts.NextHop))
+//@ ensures[installed] index in dom(newRIB.Afts.NextHop) && index in dom(r.r.Afts.NextHop) && r.r.Afts.NextHop[index] != nil
+//@ ensures[installed-fresh] fresh(r.r.Afts.NextHop[index])
+//@ ensures[installed-same] same_nh(r.r.Afts.NextHop[index], newRIB.Afts.NextHop[index])
+//@ ensures[others-kept] othersKept_nh(r.r.Afts, index)
+//@ ensures[wf] holderWF(r)
+//@ assigns r.r.Afts.NextHop, contents(r.r.Afts.NextHop)
+//@ props C01 C12:safety
+
